@@ -235,7 +235,7 @@ def scalar_ops(n, K, a, obj, P):
             ops.append(_call(f"transform_{n}", "transform:noargs", **f))
         if bad:
             ops.append(_call(f"update_{n}", "update:bad", bad[0], **f))
-        fns = ["inc", "same", "ident"] + (["bad", "missing"] if P.get("invalid", True) else []) + (["raise"] if P.get("raising", False) else [])
+        fns = ["inc", "same", "ident", "shallow", "mutret"] + (["bad", "missing"] if P.get("invalid", True) else []) + (["raise"] if P.get("raising", False) else [])
         for fn in fns:
             ops.append(_call(f"transform_{n}", f"transform:{fn}", FN(fn), **f))
         ops.append(_call(f"reset_{n}", "reset_attr", **f))
